@@ -22,6 +22,8 @@ func runC20(c *Ctx) {
 	R.Rule("C20.R4", "a synthesised attribute is never the sole survivor: every append of a sanitiser-made attribute (rel, target, crossorigin, sandbox) is dominated by evidence that the attribute list is non-empty after URL validation — a len(list) > 0 test, or a found-flag raised while traversing the list, on a version of the list that is not the input of the validURL filter; otherwise an element whose URL attributes were all rejected leaves pass 1 with only the synthesised attribute, which pass 2 strips (the policy does not allow it), so the element comes out bare or is dropped")
 	R.Rule("C20.R5", "synthesised attributes keep their place: on no path (per element name) are two sanitiser-made attributes with different keys both appended — if K1 is appended before K2, a policy that allows K2 but not K1 on that element keeps K2 in place on the second pass and re-appends K1 after it, so the attribute order flips")
 	R.Rule("C20.R6", "the allow-list filter is a fixed point: each incoming attribute is kept at most once per pass (a duplicated attribute is duplicated again by the next pass)")
+	R.Rule("C20.R7", "validURL parses what it was given: the argument of url.Parse derives from the parameter only through TrimSpace, slicing/concatenation and CR/LF removal — no decoding or re-casing before the parse")
+	parsesWhatItWasGiven(c, "C20.R7")
 	R.Rule("C20.R3", "single serialiser: every destination write of sanitize has payload Token.String() (or a space, or raw data under allowUnsafe) — the escaping that the tokenizer's unescaping inverts; written once per token is C06.R2")
 	R.Assume(TrustGo, "idempotence of net/url normalisation and of the x/net/html decode/escape round trip is NOT decided", "the del/ins cite exception of UGCPolicy is outside the claimed clause")
 	fn := c.P.Func(load.ModPath, "(*Policy).sanitizeAttrs")
